@@ -81,13 +81,23 @@ def so_path(name):
 
 
 def _files_for(spec):
+    """everything the compilation can read: the sources, the generated Cython file, and every header or includable source in the include
+    directories AND in the directories of the sources themselves (e.g. mdtraj/rmsd/src/rotation_sse.h is included from rotation.cpp), one
+    level of sub-directories included"""
     fs = list(spec["src"]) + [spec["gen"]]
-    for d in spec["inc"]:
+    dirs = list(spec["inc"]) + sorted(set(os.path.dirname(f) for f in spec["src"]))
+    seen = set(fs)
+    for d in dirs:
         ad = os.path.join(REPO, d)
-        if os.path.isdir(ad):
-            for fn in sorted(os.listdir(ad)):
-                if fn.endswith((".h", ".hpp", ".hxx", ".pxd")):
-                    fs.append(os.path.join(d, fn))
+        if not os.path.isdir(ad):
+            continue
+        subs = [d] + [os.path.join(d, x) for x in sorted(os.listdir(ad)) if os.path.isdir(os.path.join(ad, x))]
+        for sd in subs:
+            for fn in sorted(os.listdir(os.path.join(REPO, sd))):
+                if fn.endswith((".h", ".hpp", ".hxx", ".pxd", ".inl", ".inc", ".c", ".cpp", ".cxx")):
+                    f = os.path.join(sd, fn)
+                    if f not in seen:
+                        seen.add(f); fs.append(f)
     return fs
 
 
